@@ -3,6 +3,6 @@
 set -e
 cd "$(dirname "$0")"
 export CARGO_NET_OFFLINE=true
-python3 tools/extract.py /repo lean/ArroyModel/Generated.lean
+python3 tools/extract.py "${VERIF_REPO:-/repo}" lean/ArroyModel/Generated.lean
 (cd lean && lake build)
 (cd harness && cargo build --offline --release)
